@@ -445,13 +445,35 @@ Proof.
 Qed.
 
 Theorem normalize_m_insane_future_refuted :
-  exists m mask p, owns m (ms_init p) /\ m_owner m = false /\ ~ sane m
+  exists m mask p, owns m (ms_init p) /\ m_owner m = false /\ ~ sane m /\ t_val (m_scheme m) <> Some []
     /\ let '(rc, m', s') := normalize_m 1 mask m (ms_init p) in rc = URI_ERROR_MALLOC /\ bad_frees s' = 1.
 Proof.
-  exists w_empty_future, 6%N, (FailOnce 1). split; [|split; [reflexivity|split]].
+  exists w_empty_future, 6%N, (FailOnce 1). split; [|split; [reflexivity|split; [|split]]].
   - split.
     + unfold consistent. apply inv_false_intro; try reflexivity. constructor.
     + intros x. cbn. lia.
   - intros [_ H]. apply H. reflexivity.
+  - discriminate.
   - vm_compute. split; reflexivity.
 Qed.
+
+Lemma ext_meaning s s' : ext s s' ->
+  bad_frees s' = bad_frees s /\ ms_plan s' = ms_plan s /\ ms_requests s <= ms_requests s' /\ ms_next s <= ms_next s'.
+Proof. intros [a b c d]. auto. Qed.
+
+Lemma fails_between_meaning s s' : fails_between s s' <->
+  exists n, ms_requests s < n <= ms_requests s' /\ plan_fails (ms_plan s) n = true.
+Proof. reflexivity. Qed.
+
+Lemma wf_meaning s : wf s <-> (NoDup (live_ids s) /\ forall id, In id (live_ids s) -> id < ms_next s).
+Proof.
+  unfold wf. split.
+  - intros [H1 H2]. split; [apply cnt_NoDup; exact H1|]. intros id Hi. apply cnt_In in Hi.
+    destruct (Nat.lt_ge_cases id (ms_next s)) as [?|Hge]; [assumption|]. specialize (H2 id Hge). unfold L in H2. lia.
+  - intros [H1 H2]. split; [apply cnt_NoDup; exact H1|]. intros x Hx. unfold L.
+    destruct (Nat.eq_dec (cnt (live_ids s) x) 0) as [?|Hn]; [assumption|]. exfalso.
+    assert (In x (live_ids s)) as Hi by (apply cnt_In; lia). specialize (H2 x Hi). lia.
+Qed.
+
+Lemma owns_meaning m s : wf s -> owns m s <-> (consistent m /\ NoDup (muri_blocks m) /\ incl (muri_blocks m) (live_ids s)).
+Proof. intros W. unfold owns. rewrite (holds_incl m s W). tauto. Qed.
